@@ -137,7 +137,7 @@ func RunC09(r *core.Run) {
 		{"ParseOneContact", sipsp.HdrContact, sipsp.ParseOneContact, true, true},
 		{"ParseOnePAI", sipsp.HdrPAI, sipsp.ParseOnePAI, true, false},
 	}
-	n := r.Pick(1000000, 15000000)
+	n := r.Pick(1000000, 90000000)
 	r.Stage("stand-alone-values", n, func(w *core.Worker, idx int64) {
 		rr := core.NewRand(r.Seed, 0xC09, 1, uint64(idx))
 		k := kinds[rr.Intn(len(kinds))]
@@ -192,7 +192,7 @@ func RunC09(r *core.Run) {
 			w.Sample("stand-alone-values", map[string]any{"parser": k.name, "value": core.Esc(buf)})
 		}
 	})
-	r.Stage("contact-and-pai-lists", r.Pick(600000, 10000000), func(w *core.Worker, idx int64) {
+	r.Stage("contact-and-pai-lists", r.Pick(600000, 60000000), func(w *core.Worker, idx int64) {
 		rr := core.NewRand(r.Seed, 0xC09, 2, uint64(idx))
 		nv := rr.Range(1, 6)
 		pai := rr.Intn(3) == 0
@@ -301,7 +301,7 @@ func RunC09(r *core.Run) {
 		w.Inc("lists_compared")
 		w.Nontrivial(core.HashBytes(buf))
 	})
-	r.Stage("inside-messages", r.Pick(600000, 10000000), func(w *core.Worker, idx int64) {
+	r.Stage("inside-messages", r.Pick(600000, 60000000), func(w *core.Worker, idx int64) {
 		rr := core.NewRand(r.Seed, 0xC09, 3, uint64(idx))
 		m := gen.Msg(rr, gen.MsgOpts{MinHdrs: 2, MaxHdrs: 12, MultiNA: 50,
 			Kinds: []int{gen.HFrom, gen.HTo, gen.HContact, gen.HContact, gen.HPAI, gen.HExpires, gen.HCSeq, gen.HCallID, gen.HVia, gen.HOtherKind}})
